@@ -1010,6 +1010,248 @@ def resume_wait_sites(world, keep):
     return sites
 
 
+# ------------------------------------------------------------------ list cursors across unlock windows
+
+LIST_FIELDS = ("conn_list", "susp_list", "cleanup_list", "new_list", "tmo_list", "eready_list")
+LINK_FIELDS = ("conn_links", "tmo_links", "eready_links")
+CURSOR_KINDS = ["rereadHead", "freshLinkOfCarriedNode", "carriedValue"]
+_RANK = {"fresh": 0, "node": 1, "stale": 2}
+
+
+def _callee_name(n):
+    if n.get("kind") != "CallExpr" or not n.get("inner"):
+        return None
+    f = strip(n["inner"][0])
+    return f.get("referencedDecl", {}).get("name") if f.get("kind") == "DeclRefExpr" else None
+
+
+def _member_field(n):
+    """(Field, base expression) of a MemberExpr on a struct of the shared set, else (None, None)"""
+    if n.get("kind") != "MemberExpr" or not n.get("inner"):
+        return None, None
+    base = n["inner"][0]
+    return FIELD_MAP.get((struct_tag(base.get("type", {}).get("qualType")), n.get("name"))), base
+
+
+class CursorWalk:
+    """One iteration of a loop whose body releases and re-takes mutex `L` (an *unlock window*).
+    Pointer locals are tracked by where their value was read:
+      fresh  from a list head/tail (or from a link of a fresh node) while L is held, no window since;
+      stale  before the window (or inside it): the very value is carried across unlock ... lock;
+      node   after the re-lock, through a link (`->prev`/`->next`) of a pointer that is itself stale.
+    The statuses are joined over the structured paths of the body that pass through the window."""
+
+    def __init__(self, L):
+        self.L = L
+        self.continues = []
+
+    @staticmethod
+    def merge(states):
+        states = [s for s in states if s is not None]
+        if not states:
+            return None
+        out = {"vars": {}, "locked": all(s["locked"] for s in states), "crossed": any(s["crossed"] for s in states)}
+        for s in states:
+            for k_, v_ in s["vars"].items():
+                if k_ not in out["vars"] or _RANK[v_] > _RANK[out["vars"][k_]]:
+                    out["vars"][k_] = v_
+        return out
+
+    @staticmethod
+    def cp(s):
+        return {"vars": dict(s["vars"]), "locked": s["locked"], "crossed": s["crossed"]}
+
+    def value(self, e, s):
+        """status of the pointer value of expression `e` (None: not list-derived)"""
+        e = strip(e)
+        k = e.get("kind")
+        if k == "DeclRefExpr":
+            return s["vars"].get(e.get("referencedDecl", {}).get("id"))
+        if k == "MemberExpr":
+            fld, base = _member_field(e)
+            if fld in LIST_FIELDS:
+                return "fresh" if s["locked"] else "stale"
+            if fld in LINK_FIELDS:
+                if not s["locked"]:
+                    return "stale"
+                b = self.value(base, s)
+                return "fresh" if b in (None, "fresh") else "node"
+            return None
+        if k == "BinaryOperator" and e.get("opcode") == "=":
+            return self.value(e["inner"][1], s)
+        if k == "ConditionalOperator" and len(e.get("inner", [])) == 3:
+            a, b = self.value(e["inner"][1], s), self.value(e["inner"][2], s)
+            cand = [x for x in (a, b) if x is not None]
+            return max(cand, key=_RANK.get) if cand else None
+        return None
+
+    def expr(self, n, s):
+        if not isinstance(n, dict) or not n.get("kind") or s is None:
+            return s
+        k = n["kind"]
+        inner = [c for c in (n.get("inner") or []) if isinstance(c, dict)]
+        if k == "CallExpr":
+            nm = _callee_name(n)
+            for a in inner[1:]:
+                s = self.expr(a, s)
+            if nm in ("pthread_mutex_lock", "pthread_mutex_unlock") and len(inner) > 1 and \
+                    Walker.lock_of(None, inner[1]) == self.L:
+                s = self.cp(s)
+                if nm == "pthread_mutex_unlock":
+                    s["locked"], s["crossed"] = False, True
+                    s["vars"] = {k_: "stale" for k_ in s["vars"]}
+                else:
+                    s["locked"] = True
+            if nm in NORETURN:
+                return None
+            return s
+        if k == "BinaryOperator" and n.get("opcode") == "=" and len(inner) == 2:
+            s = self.expr(inner[1], s)
+            lhs = strip(inner[0])
+            if s is not None and lhs.get("kind") == "DeclRefExpr" and "*" in lhs.get("type", {}).get("qualType", ""):
+                v = self.value(inner[1], s)
+                s = self.cp(s)
+                vid = lhs.get("referencedDecl", {}).get("id")
+                if v is None:
+                    s["vars"].pop(vid, None)
+                else:
+                    s["vars"][vid] = v
+                return s
+            return self.expr(inner[0], s)
+        if k == "StmtExpr" and inner:
+            return self.stmt(inner[0], s)
+        for c in inner:
+            s = self.expr(c, s)
+        return s
+
+    def stmt(self, n, s):
+        if not isinstance(n, dict) or not n.get("kind") or s is None:
+            return s
+        k = n["kind"]
+        inner = [c for c in (n.get("inner") or []) if isinstance(c, dict)]
+        if k == "CompoundStmt":
+            for c in inner:
+                s = self.stmt(c, s)
+            return s
+        if k == "DeclStmt":
+            for d in inner:
+                if d.get("kind") == "VarDecl":
+                    for init in d.get("inner") or []:
+                        if isinstance(init, dict) and init.get("kind") and s is not None:
+                            s = self.expr(init, s)
+                            v = self.value(init, s) if "*" in d.get("type", {}).get("qualType", "") else None
+                            if v is not None:
+                                s = self.cp(s)
+                                s["vars"][d.get("id")] = v
+            return s
+        if k == "IfStmt":
+            s = self.expr(inner[0], s)
+            if s is None:
+                return None
+            c = strip(inner[0])
+            a = self.stmt(inner[1], self.cp(s)) if not (c.get("kind") == "IntegerLiteral" and c.get("value") == "0") else None
+            b = self.stmt(inner[2], self.cp(s)) if len(inner) > 2 else self.cp(s)
+            if c.get("kind") == "IntegerLiteral" and c.get("value") != "0":
+                b = None
+            return self.merge([a, b])
+        if k == "DoStmt":
+            s = self.stmt(inner[0], s)                   # `do { ... } while (0)` macro bodies; inner loops: one pass
+            return self.expr(inner[1], s)
+        if k == "WhileStmt":
+            s = self.expr(inner[0], s)
+            return self.merge([s, self.stmt(inner[1], self.cp(s)) if s is not None else None])
+        if k == "ForStmt":
+            return self.merge([s, self.stmt(inner[-1], self.cp(s))])
+        if k == "ContinueStmt":
+            self.continues.append(s)
+            return None
+        if k in ("BreakStmt", "ReturnStmt", "GotoStmt"):
+            return None
+        if k in ("LabelStmt", "AttributedStmt", "CaseStmt", "DefaultStmt", "SwitchStmt"):
+            for c in inner:
+                s = self.stmt(c, s) if c.get("kind", "").endswith("Stmt") else self.expr(c, s)
+            return s
+        return self.expr(n, s)
+
+
+def loop_cursors(world):
+    """Every loop (of any function of the four files) whose body contains an unlock ... lock window of a
+    mutex and whose condition tests a pointer that walks one of the daemon's lists:
+      (function, line, mutex, list, cursor kind).
+    rereadHead: after the window the cursor is read again from the list head/tail under the mutex;
+    freshLinkOfCarriedNode: the cursor is read under the mutex from a link of a node pointer carried across;
+    carriedValue: the cursor is a value that was read before the unlock."""
+    out = []
+    is_loop = lambda n: n.get("kind") in ("WhileStmt", "ForStmt", "DoStmt")
+    for name in sorted(world.defs, key=lambda n: (FILES.index(world.defs[n].file), world.defs[n].line)):
+        fi = world.defs[name]
+        body = next(c for c in fi.node["inner"] if c.get("kind") == "CompoundStmt")
+        line_of = world.line_of(fi.file)
+        assigns = find_all(body, lambda x: x.get("kind") == "BinaryOperator" and x.get("opcode") == "=")
+        for lp in find_all(body, is_loop):
+            inner = [c if isinstance(c, dict) else {} for c in (lp.get("inner") or [])]
+            if lp["kind"] == "DoStmt":
+                lbody, cond, init, inc = inner[0], inner[1], None, None
+                if strip(cond).get("kind") == "IntegerLiteral":
+                    continue                                     # do { } while (0) macro
+            elif lp["kind"] == "WhileStmt":
+                cond, lbody, init, inc = inner[0], inner[1], None, None
+            else:
+                init, _cv, cond, inc, lbody = (inner + [{}] * 5)[:5]
+            calls = find_all(lbody, lambda x: _callee_name(x) in ("pthread_mutex_lock", "pthread_mutex_unlock"))
+            locks = {}
+            for c in calls:
+                locks.setdefault(Walker.lock_of(None, c["inner"][1]), set()).add(_callee_name(c))
+            for L in LOCKS:
+                if locks.get(L) != {"pthread_mutex_lock", "pthread_mutex_unlock"}:
+                    continue
+                cw = CursorWalk(L)
+                s = {"vars": {}, "locked": True, "crossed": False}
+                if init and init.get("kind"):
+                    s = cw.stmt(init, s) if init["kind"].endswith("Stmt") else cw.expr(init, s)
+                if lp["kind"] != "DoStmt":
+                    s = cw.expr(cond, s)
+                # cursor candidates: pointer locals tested by the condition
+                cvars = {d.get("referencedDecl", {}).get("id"): d.get("referencedDecl", {}).get("name")
+                         for d in find_all(cond, lambda x: x.get("kind") == "DeclRefExpr" and
+                                           x.get("referencedDecl", {}).get("kind") == "VarDecl" and
+                                           "*" in x.get("type", {}).get("qualType", ""))}
+                for vid in cvars:                                 # entering the loop: the cursor is a list position
+                    s["vars"].setdefault(vid, "fresh")
+                end = cw.stmt(lbody, s)
+                paths = [x for x in [end] + cw.continues if x is not None and x["crossed"]]
+                if not paths:
+                    continue
+                m = cw.merge(paths)
+                if inc and inc.get("kind"):
+                    m = cw.expr(inc, m)
+                m = cw.expr(cond, m)
+                st = [m["vars"][v] for v in cvars if v in m["vars"]]
+                if not st:
+                    continue
+                worst = max(st, key=_RANK.get)
+                kind = {"fresh": "rereadHead", "node": "freshLinkOfCarriedNode", "stale": "carriedValue"}[worst]
+                # which list: head/tail members assigned to a cursor variable in the loop, else the last such
+                # assignment before the loop
+                lo = exp_offset(lp["range"]["begin"]) or 0
+                hi = exp_offset(lp["range"]["end"]) or 0
+                lists_in, lists_before = [], []
+                for a in assigns:
+                    lhs = strip(a["inner"][0])
+                    if lhs.get("kind") != "DeclRefExpr" or lhs.get("referencedDecl", {}).get("id") not in cvars:
+                        continue
+                    fld, _b = _member_field(strip(a["inner"][1]))
+                    if fld in LIST_FIELDS:
+                        off = exp_offset(a["range"]["begin"]) or 0
+                        (lists_in if lo <= off <= hi else lists_before).append((off, fld))
+                lists_before = [x for x in lists_before if x[0] < lo]
+                lst = (sorted(lists_in)[0][1] if lists_in else (sorted(lists_before)[-1][1] if lists_before else None))
+                if lst is None:
+                    continue
+                out.append((name, line_of(lo), L, lst, kind))
+    return out
+
+
 def lean_list(xs, f=str):
     return "[" + ", ".join(f(x) for x in xs) + "]"
 
@@ -1092,6 +1334,18 @@ structure Entry where
     o.append(",\n".join('  ("%s", %d, %s, %s)' % (a, b, "true" if c else "false", "true" if d else "false") for a, b, c, d in sites))
     o.append("]")
     o.append("")
+    loops = loop_cursors(world)
+    o.append("/-- how a loop finds its next list position after it has released and re-taken a mutex in its body -/")
+    o.append("inductive CursorKind where\n  | " + " | ".join(CURSOR_KINDS) + "\n  deriving DecidableEq, Repr")
+    o.append("/-- every loop whose body contains an unlock … lock window of a mutex and whose condition tests a pointer that")
+    o.append("    walks one of the daemon's lists: (function, line, mutex, list walked, cursor after the window — by data flow")
+    o.append("    over the structured paths of the loop body in the AST).  `rereadHead`: read again from the list head/tail")
+    o.append("    under the mutex; `freshLinkOfCarriedNode`: read under the mutex from a link of a node pointer that was")
+    o.append("    carried across the window; `carriedValue`: a value read before the unlock -/")
+    o.append("def unlockLoops : List (String × Nat × Lock × Field × CursorKind) := [")
+    o.append(",\n".join('  ("%s", %d, .%s, .%s, .%s)' % x for x in loops))
+    o.append("]")
+    o.append("")
     o.append("/-- certificate: a numbering of the locks that every lock-order edge of `table` must respect -/")
     o.append("def lockRank : Lock → Nat")
     for l in LOCKS:
@@ -1099,7 +1353,8 @@ structure Entry where
     o.append("")
     o.append("end Mhd.Gen.Locks")
     world.resume_sites = sites
-    info = dict(resume_wait_sites=["%s:%d tpcOnly=%s feeds=%s" % x for x in sites], functions=len(names), events=sum(len(ev[n]) for n in names),
+    world.unlock_loops = loops
+    info = dict(unlock_loops=["%s:%d %s %s %s" % x for x in loops], resume_wait_sites=["%s:%d tpcOnly=%s feeds=%s" % x for x in sites], functions=len(names), events=sum(len(ev[n]) for n in names),
                 edges=sorted("%s->%s" % e for e in edges), rank=rank)
     return "\n".join(o) + "\n", info, (names, ev, eMust, eMay, acq)
 
